@@ -232,6 +232,8 @@ def run_case(case):
     nfac, nsol = ref.factory.n_factor, ref.factory.n_solve
     positions = [("eval", c, k) for c in mon.COMPONENTS for k in range(counts[c])]
     positions += [("factor", None, k) for k in range(nfac)] + [("solve", None, k) for k in range(nsol)]
+    # a linear solver that does not report its failure but returns a vector containing NaN (every third solve)
+    positions += [("nan", None, k) for k in range(0, nsol, 3)]
     bump("base_runs")
     bump("base_runs_out_of_bounds_start", int(bool(case.get("x0_out"))))
     bump("positions_in_reference_runs", len(positions))
@@ -262,7 +264,9 @@ def run_case(case):
                                    % (kind, comp, k))
             continue
         bump("positions_hit_%s" % (comp if kind == "eval" else kind))
-        viol, st = judge(case, p, out, fe, fl)
+        # (a silently non-finite solution is only a failure of the trial if a used part of it is non-finite: components
+        # of active variables are overwritten by the step solvers, so "discarded" is not demanded for these positions)
+        viol, st = judge(case, p, out, fe, fl, check_discard=(kind != "nan"))
         for v in viol:
             v.setdefault("detail", {})["position"] = [kind, comp, k]
         res["viol"] += viol
@@ -289,11 +293,11 @@ def finalize(agg, tier):
         "rule": "base runs: small QP/NLP/degenerate/nonconvex specs x all 4 step solvers x all 4 step controllers x "
                 "LU/GMRES(/MINRES) x random Newton type, penalty, active-set rule, scaling none/custom, 6-10 iterations; for "
                 "each base run every evaluation index of obj/obj_grad/cons/cons_jac/lag_hess and every factorisation and "
-                "solve index of the fault-free reference run is failed once (transient); region runs: every evaluation "
+                "solve index of the fault-free reference run is failed once (transient), every third solve additionally returns a vector containing NaN without raising; region runs: every evaluation "
                 "outside a ball / half-space around the start fails; a position is non-trivial when the injected failure "
                 "actually fired; positions are distinct by construction",
         "floors": {"base_runs": 30, "positions_enumerated": 2000, "recoveries": 1000, "positions_hit_factor": 100,
-                   "positions_hit_solve": 100, "positions_hit_lag_hess": 100, "positions_hit_cons": 100,
+                   "positions_hit_solve": 100, "positions_hit_nan": 40, "positions_hit_lag_hess": 100, "positions_hit_cons": 100,
                    "region_faults_fired": 100, "recoveries_Standard": 50, "recoveries_Extended": 50,
                    "recoveries_Symmetric": 50, "recoveries_Asymmetric": 50, "initial_point_errors": 30,
                    "region_display_faults_fired": 30},
